@@ -254,6 +254,7 @@ class Program:
                 n = self.callee_name(t)
                 k = self.bodies.get(n)
                 if (k is None or n == root or k.get("crate") != crate or str(k.get("vis")) == "Public" or count.get(n) != 1
+                        or n.rsplit("::", 1)[0] != root.rsplit("::", 1)[0]  # only helpers of the same module / impl
                         or "{closure" in n or (skip and re.search(skip, n)) or n in done or not t.get("targets")):
                     continue
                 rty = k["locals"][0]["ty"]
